@@ -155,3 +155,13 @@ package io
 //@ ensures[size] w.Err == nil ==> ext(w.w.out, old(w.w.out), varsize(len(b)) + len(b))
 //@ ensures[prefix] w.Err == nil ==> decvar(w.w.out, old(len(w.w.out))) == len(b)
 //@ ensures[body] w.Err == nil ==> forall(i, 0, len(b), w.w.out[old(len(w.w.out)) + varsize(len(b)) + i] == b[i])
+
+//@ func (*BinReader).ReadVarBytes
+//@ requires validR(r) && (len(maxSize) > 0 ==> maxSize[0] >= 0)
+//@ modifies r.Err, r.uv, r.r.pos
+//@ ensures[sticky] old(r.Err) != nil ==> r.Err == old(r.Err) && r.r.pos == old(r.r.pos)
+//@ ensures[bound] len(result) <= ite(len(maxSize) > 0, maxSize[0], MaxArraySize)
+//@ ensures[nil] result == nil ==> r.Err != nil
+//@ ensures[ok] r.Err == nil ==> result != nil && len(result) == decvar(r.r.in, old(r.r.pos)) && r.r.pos == old(r.r.pos) + declen(r.r.in, old(r.r.pos)) + len(result) && forall(i, 0, len(result), result[i] == r.r.in[old(r.r.pos) + declen(r.r.in, old(r.r.pos)) + i])
+//@ ensures[fresh] result != nil ==> fresh(result)
+//@ ensures[pos] old(r.r.pos) <= r.r.pos && r.r.pos <= len(r.r.in) && validR(r)
